@@ -49,6 +49,10 @@ CHECKS = {
          "For each operation of each seeded history the writes w and commits c are measured on a copy, then the operation is replayed once per fault point (failed k-th write, failed commit, crash before commit, crash after commit), the store is reopened without faults and must open and show the complete effect or none (observable snapshot, private-passphrase acceptance per keystore, public passphrase that opens it); an operation that returned an error must leave the running instance unchanged, an acknowledged one must survive restart. The fault space of every explored operation is enumerated completely; operations and histories are sampled. Real kills: reopened state must be the acknowledged prefix or prefix plus the in-flight operation.",
          "read faults are not injected (statement is about writes, commits, crashes); SIGKILL cannot lose page cache, so leveldb's own fsync discipline is exercised but not power loss; goleveldb transaction atomicity is trusted below the db interface",
          "DESIGN.md §3 C12"),
+ "C13": ("exploration", "stress and directed schedules of the real keepers under the race detector in child processes; call/return completeness, watchdog with goroutine-dump attribution, process-death detection",
+         "4-16 goroutines fire every keeper entry point (single and bulk actions, queries, miner offers, Start, Stop) at 1-3 spaces on the v1 keeper over scripted plots, on the v2 keeper, and on the v1 keeper over the real massdb.v1 backend with small plot windows; directed schedules hold a real plot at a hook point while a Stop request races keeper shutdown, fire 900-1500 requests while a plot is held, and cycle Start/Stop. Every call must return, Stop must return and the process must not panic; an open call at the 45 s watchdog is a deadlock only if the goroutine dump shows goroutines blocked in repository frames. Held = on the scenarios of this run; race reports in repository code are listed as observations (the statement does not promise race freedom).",
+         "wall-clock watchdog (45 s against normal latencies of micro- to milliseconds) decides 'never returns' together with the dump; real plots only at bit lengths 12-16",
+         "DESIGN.md §3 C13"),
  "C14": ("exploration", "Go race detector over concurrent wallet histories in child processes (reports filtered to repository frames) + porcupine linearizability check of every recorded history against a sequential wallet model + quiescent-state inspection",
          "2-4 goroutines issue mixed wallet operations on 1-2 keystores under -race; every call is recorded at the client boundary with one monotonic clock and every history is checked with porcupine against a sequential model (issued indices, lock flag, remark, export contents, lookups); race reports whose two accesses are both in repository code are violations, de-duplicated by function pair; a dead child is a crash; at the end the H4 locked-memory invariant and reopen equality are checked. Held = no report / all histories linearizable in this run.",
          "race detector only sees executed interleavings; porcupine timeout (60 s) = dropped case; model allows Unlock(current) to fail on an already unlocked wallet (sequential behaviour of the code)",
